@@ -296,3 +296,62 @@ def gen_tree(rng, caseless):
 def case_line(t):
     enc = ";".join("%s=%s" % (hx(p.encode()), hx(c)) for p, c in t["files"].items())
     return "incf %d %s %s %s" % (t["max_depth"], hx(t["root"].encode()), enc, hx(t["flat"]) if t["flat"] else "-")
+
+
+# ------------------------------------------------------------------ hand-written boundary trees
+
+def fixed_trees():
+    """(max_depth, root, {path: bytes}): boundary situations at include borders; no generator-side
+    expectation (implementation vs model vs structural expansion)."""
+    long63 = b"x" * 63
+    T = []
+    # included file ends inside an open parenthesis; includer would continue
+    T.append((2, "root.zone", {"root.zone": b"$ORIGIN e.\n$INCLUDE a.zone\nb 5 IN A 1.2.3.4\n",
+                               "a.zone": b"a 5 IN A ( 1.2.3.4\n"}))
+    # included file without final line ending, then an omitted owner / TTL / class in the includer
+    T.append((2, "root.zone", {"root.zone": b"$ORIGIN e.\n$INCLUDE a.zone\n  A 1.2.3.5\n@ MX 1 @\n",
+                               "a.zone": b"$TTL 77\nq.z. HS TXT \"t\"\nw CH A x 0777"}))
+    # the directive spread over several lines with parentheses and comments; origin relative to the current origin; @
+    T.append((2, "d/root.zone", {"d/root.zone": b"$ORIGIN e.\n$INCLUDE ( a.zone ; c\n sub ) ; d\nx 1 IN NS @\n$INCLUDE a.zone @\n",
+                                 "d/a.zone": b"@ 3 IN NS y\ny 4 IN A 1.1.1.1\n"}))
+    # empty / comment-only / blank included files leave the context alone
+    T.append((1, "root.zone", {"root.zone": b"a. 9 IN A 1.2.3.4\n$INCLUDE e1\n$INCLUDE e2\n$INCLUDE e3\n A 1.2.3.5\n",
+                               "e1": b"", "e2": b"; nothing\n\n   ; x", "e3": b"\r\n\r\n"}))
+    # previous class / TTL set only inside the included file
+    T.append((1, "root.zone", {"root.zone": b"$INCLUDE a\n. A \\# 4 01020304\n", "a": b"a. 9 CH TXT x\n"}))
+    T.append((1, "root.zone", {"root.zone": b"$INCLUDE a\nb. IN A 1.2.3.4\n", "a": b"$TTL 4294967295\n"}))
+    # a chain exactly at / one beyond the limit
+    chain = {"f0": b"$INCLUDE f1\n. 1 IN A 1.1.1.0\n", "f1": b"$INCLUDE f2\n. 1 IN A 1.1.1.1\n",
+             "f2": b"$INCLUDE f3\n. 1 IN A 1.1.1.2\n", "f3": b". 1 IN A 1.1.1.3\n"}
+    for d in (2, 3, 4):
+        T.append((d, "f0", chain))
+    # self-inclusion and a two-cycle
+    T.append((3, "s/self", {"s/self": b"a. 1 IN A 1.2.3.4\n$INCLUDE self b.\n@ A 1.2.3.5\n"}))
+    T.append((4, "p", {"p": b"$ORIGIN p.\n$INCLUDE q\n", "q": b"x 1 IN A 1.2.3.4\n$INCLUDE p\n"}))
+    # quoted path with blanks and escapes; path with `..` through another directory
+    T.append((1, "r/root.zone", {"r/root.zone": b"$INCLUDE \"../dir with space/f\\032g.zone\" o.\n",
+                                 "dir with space/f g.zone": b"@ 1 IN A 1.2.3.4\n"}))
+    T.append((2, "r/s/root.zone", {"r/s/root.zone": b"$INCLUDE ../t/a\n", "r/t/a": b"$INCLUDE ../../u/b\n", "u/b": b". 1 IN A 1.2.3.4\n"}))
+    # the name limit is reached only through the origin handed to the included file
+    org = b".".join([long63] * 3) + b"."
+    T.append((1, "root.zone", {"root.zone": b"$INCLUDE a " + org + b"\n",
+                               "a": b"x" * 61 + b" 1 IN A 1.2.3.4\n" + b"x" * 62 + b" 1 IN A 1.2.3.4\n"}))
+    # directories, missing files, unknown directive / syntax error inside an included file
+    T.append((1, "r/root.zone", {"r/root.zone": b". 1 IN A 1.2.3.4\n$INCLUDE .\n"}))
+    T.append((1, "r/root.zone", {"r/root.zone": b"$INCLUDE ..\n"}))
+    T.append((1, "r/root.zone", {"r/root.zone": b"$INCLUDE \"\"\n"}))
+    T.append((1, "root.zone", {"root.zone": b"$INCLUDE nope\n"}))
+    T.append((1, "root.zone", {"root.zone": b"a. 1 IN A 1.2.3.4\n$INCLUDE a\n", "a": b"b. 1 IN A 1.2.3.4\n$BOGUS\nc. 1 IN A 1.2.3.4\n"}))
+    T.append((1, "root.zone", {"root.zone": b"$INCLUDE a\n", "a": b"\n\n  x 1 IN A 1.2.3.4\n"}))
+    # relative name in the included file with no origin anywhere; @ likewise
+    T.append((1, "root.zone", {"root.zone": b"$INCLUDE a\n", "a": b"x 1 IN A 1.2.3.4\n"}))
+    T.append((1, "root.zone", {"root.zone": b"$INCLUDE a\n@ 1 IN A 1.2.3.4\n", "a": b"$ORIGIN e.\n@ 1 IN A 1.2.3.4\n"}))
+    # depth limit 0 with and without an $INCLUDE
+    T.append((0, "root.zone", {"root.zone": b". 1 IN A 1.2.3.4\n"}))
+    T.append((0, "root.zone", {"root.zone": b". 1 IN A 1.2.3.4\n$INCLUDE a\n", "a": b""}))
+    return T
+
+
+def fixed_cases():
+    for d, root, files in fixed_trees():
+        yield case_line({"max_depth": d, "root": root, "files": files, "flat": None}) + " -"
